@@ -70,14 +70,14 @@ def main(chk):
     w2c2 = env.build_translator('plain')
     rnd = env.rng('c01')
     nb = ['-include', 'nobuiltin.h']
-    builds = [('gcc-O1', 'gcc', ['-O1'], []), ('gcc-O2-nobuiltin', 'gcc', ['-O2'], nb), ('gcc-O0-gnu89', 'gcc', ['-O0', '-std=gnu89'], [])]
+    builds = [('gcc-O1', 'gcc', ['-O1'], []), ('gcc-O2-nobuiltin', 'gcc', ['-O2'], nb), ('gcc-O0-gnu89-unsigned-char', 'gcc', ['-O0', '-std=gnu89', '-funsigned-char'], [])]
     if not quick:
         builds += [('clang-O2', 'clang', ['-O2'], []), ('clang-O0-nobuiltin', 'clang', ['-O0'], nb)]
     env.pmap(lambda bl: run_directed(chk, w2c2, bl[0], bl[1], bl[2], bl[3], env.rng('c01-dir')), builds)
 
     # in-module sweeps: every integer opcode over all 2^32 patterns of a 32-bit operand (thorough) / seeded lattices (quick)
     exhaust.run_sweeps(chk, w2c2, 'C01', [e for e in exhaust.sweep_ops() if e[1] in gen.INT_OPS], builds,
-                       slow_builds=(() if quick else ('clang-O0-nobuiltin', 'gcc-O0-gnu89')))
+                       slow_builds=(() if quick else ('clang-O0-nobuiltin', 'gcc-O0-gnu89-unsigned-char')))
 
     # the same opcodes on compile-time CONSTANT operands (what the C compiler folds), every non-trapping tuple of the tables
     exhaust.run_constfold(chk, w2c2, 'C01', gen.INT_OPS, builds, env.rng('c01-constfold'))
